@@ -60,7 +60,8 @@ type c14Row struct {
 	AtHash                                             bool `json:"at_hash"`
 	CHash                                              bool `json:"c_hash"`
 	Undet                                              bool
-	MaxAge                                             int `json:"max_age"`
+	SessionAud                                         bool `json:"session_aud"`
+	MaxAge                                             int  `json:"max_age"`
 	Offset                                             int
 }
 
@@ -100,6 +101,9 @@ func runC14(rep *TReport, raw json.RawMessage) {
 		}
 		if r.Tbl == "A" && r.Key != "rsa" && r.Key != "ec256" && r.Key != "jwk_es384_nohdr" {
 			s.Headers.Extra = map[string]interface{}{"alg": r.Alg} // the application names the algorithm of its key
+		}
+		if r.SessionAud {
+			s.Claims.Audience = []string{"https://api.example.org"}
 		}
 		switch r.Preset {
 		case "future":
